@@ -20,17 +20,24 @@ def real_ecdsa():
     return loader.module("ecdsa.ecdsa").real
 
 
-def mk_world(ex, F, with_priv=True):
-    """generator G of prime order n, key pair (d, Q = dG)"""
+def mk_world(ex, F, with_priv=True, legacy=False):
+    """generator G of prime order n, key pair (d, Q = dG); legacy: the key is built over the affine class ellipticcurve.Point"""
     n = F.p
     curve = SObj(ex.convert(real_ec().CurveFp), {"_CurveFp__p": ex.fresh_int("field_p"), "_CurveFp__a": ex.fresh_int("a"),
                                                  "_CurveFp__b": ex.fresh_int("b"), "_CurveFp__h": 1})
-    G = mk_abstract(ex, F, 1, curve=curve, order=n)
-    G.fields["_PointJacobi__generator"] = True
     d = F.atom("d", "coord")
     F.assume_nonzero(d.res)
     d.iv = (lin(0, 1), lin(1, -1))
-    Q = mk_abstract(ex, F, d.res, like=G)
+    if legacy:
+        from contracts.ellipticcurve import mk_abstract_legacy
+        F.legacy_world = True
+        F.world = dict(curve=curve)
+        G = mk_abstract_legacy(ex, F, 1, curve, n)
+        Q = mk_abstract_legacy(ex, F, d.res, curve, n)
+    else:
+        G = mk_abstract(ex, F, 1, curve=curve, order=n)
+        G.fields["_PointJacobi__generator"] = True
+        Q = mk_abstract(ex, F, d.res, like=G)
     pub = SObj(ex.convert(real_ecdsa().Public_key), {"curve": curve, "generator": G, "point": Q})
     W = dict(G=G, d=d, Q=Q, pub=pub, curve=curve, n=n)
     if with_priv:
@@ -56,8 +63,8 @@ def out_of_range(F, v):
 
 
 # ---- Private_key.sign -------------------------------------------------------------------------------------------
-def _sign_setup(ex, F):
-    W = mk_world(ex, F)
+def _sign_setup(ex, F, legacy=False):
+    W = mk_world(ex, F, legacy=legacy)
     k = F.atom("k", "coord")
     F.assume_nonzero(k.res)
     k.iv = (lin(0, 1), lin(1, -1))
@@ -114,12 +121,12 @@ def emethod(cls, name, cases, post, apply_fn=None, props=()):
     return c
 
 
-emethod("Private_key", "sign", [("k-in-range", _sign_setup)], _sign_post, _sign_apply, props=("C03", "C01"))
+emethod("Private_key", "sign", [("k-in-range", _sign_setup), ("k-in-range,legacy-point-class", lambda ex, F: _sign_setup(ex, F, True))], _sign_post, _sign_apply, props=("C03", "C01"))
 
 
 # ---- Public_key.verifies ----------------------------------------------------------------------------------------
-def _ver_setup(ex, F):
-    W = mk_world(ex, F, with_priv=False)
+def _ver_setup(ex, F, legacy=False):
+    W = mk_world(ex, F, with_priv=False, legacy=legacy)
     r = F.atom("r", "free")
     s = F.atom("s", "free")
     e = F.atom("e", "free")
@@ -168,7 +175,7 @@ def _ver_apply(ex, F, vals, line):
     return bool(_ver_expected(ex, F, pub, e, r, s))
 
 
-emethod("Public_key", "verifies", [("any-r-s", _ver_setup)], _ver_post, _ver_apply, props=("C02", "C01", "C13"))
+emethod("Public_key", "verifies", [("any-r-s", _ver_setup), ("any-r-s,legacy-point-class", lambda ex, F: _ver_setup(ex, F, True))], _ver_post, _ver_apply, props=("C02", "C01", "C13"))
 
 
 # ---------------------------------------------------------------------------------------------------------------
